@@ -25,3 +25,27 @@ def run_ground(table, reg, name, timeout_ms=None):
                                        "reason": None, "paths": 1})
     res["wall_s"] = round(time.time() - t0, 3)
     return res
+
+
+def run_native(rec, timeout=300):
+    """Run the replay driver on ``rec`` under the repository's interpreter against the tree under test (BOUNDED
+    stand-ins and witnesses of known findings).  Returns the driver's JSON result, or raises."""
+    import json
+    import os
+    import subprocess
+    import tempfile
+    verif = os.path.dirname(os.path.dirname(os.path.abspath(__file__)))
+    fd, path = tempfile.mkstemp(suffix=".json")
+    os.write(fd, json.dumps(rec).encode())
+    os.close(fd)
+    env = dict(os.environ)
+    env["PYTHONPATH"] = os.path.join(os.environ.get("PYVC_REPO", "/repo"), "src") + os.pathsep + verif
+    try:
+        p = subprocess.run([os.environ.get("PYVC_NATIVE_PY", "/venv/bin/python"), "-W", "ignore",
+                            os.path.join(verif, "replay", "driver.py"), path], capture_output=True, text=True, env=env, timeout=timeout)
+        lines = [l for l in p.stdout.strip().splitlines() if l.startswith("{")]
+        if not lines:
+            raise RuntimeError("replay driver gave no result: %s" % (p.stderr or p.stdout)[-300:])
+        return json.loads(lines[-1])
+    finally:
+        os.unlink(path)
